@@ -903,8 +903,9 @@ class VectorExpression:
 
     def __rsub__(self, other: float | int) -> VectorExpression:
         # other - self
+        lefts = _reflected_operands(other, len(self._expressions), "-")
         return VectorExpression(
-            [BinaryOp(_ensure_expr(other), expr, "-") for expr in self._expressions]
+            [BinaryOp(lhs, expr, "-") for lhs, expr in zip(lefts, self._expressions)]
         )
 
     def __mul__(self, other: float | int) -> VectorExpression:
@@ -920,8 +921,9 @@ class VectorExpression:
 
     def __rtruediv__(self, other: float | int) -> VectorExpression:
         """Right scalar division."""
+        lefts = _reflected_operands(other, len(self._expressions), "/")
         return VectorExpression(
-            [BinaryOp(_ensure_expr(other), expr, "/") for expr in self._expressions]
+            [BinaryOp(lhs, expr, "/") for lhs, expr in zip(lefts, self._expressions)]
         )
 
     def __neg__(self) -> VectorExpression:
@@ -1236,9 +1238,10 @@ class VectorVariable:
         return _vector_binary_op(self, other, "-")
 
     def __rsub__(self, other: float | int) -> VectorExpression:
-        """Right subtraction: scalar - vector."""
+        """Right subtraction: scalar - vector (or array - vector, element-wise)."""
+        lefts = _reflected_operands(other, len(self._variables), "-")
         return VectorExpression(
-            [BinaryOp(_ensure_expr(other), v, "-") for v in self._variables]
+            [BinaryOp(lhs, v, "-") for lhs, v in zip(lefts, self._variables)]
         )
 
     def __mul__(self, other: float | int) -> VectorExpression:
@@ -1254,9 +1257,10 @@ class VectorVariable:
         return _vector_binary_op(self, other, "/")
 
     def __rtruediv__(self, other: float | int) -> VectorExpression:
-        """Right scalar division: 1 / x."""
+        """Right scalar division: 1 / x (or array / x, element-wise)."""
+        lefts = _reflected_operands(other, len(self._variables), "/")
         return VectorExpression(
-            [BinaryOp(_ensure_expr(other), v, "/") for v in self._variables]
+            [BinaryOp(lhs, v, "/") for lhs, v in zip(lefts, self._variables)]
         )
 
     def __neg__(self) -> VectorExpression:
@@ -1608,6 +1612,36 @@ def _vector_constraint(
         _make_constraint(left_expr, sense, right_expr)
         for left_expr, right_expr in zip(left_exprs, right_exprs)
     ]
+
+
+def _reflected_operands(
+    other: float | int | np.ndarray | list,
+    size: int,
+    op: str,
+) -> list[Expression]:
+    """Left operands of ``other <op> vector``, one per element of the vector.
+
+    A scalar is broadcast; a 1-D array or list is paired element by element
+    (as NumPy does for ``array - values``) and must have the vector's size.
+    """
+    if isinstance(other, (np.ndarray, list)):
+        arr = np.asarray(other)
+        if arr.ndim == 0:
+            return [_ensure_expr(arr.item())] * size
+        if arr.ndim != 1:
+            raise WrongDimensionalityError(
+                context=f"vector {op}",
+                expected_ndim=1,
+                got_ndim=arr.ndim,
+            )
+        if len(arr) != size:
+            raise DimensionMismatchError(
+                operation=f"vector {op}",
+                left_shape=len(arr),
+                right_shape=size,
+            )
+        return [Constant(val) for val in arr]
+    return [_ensure_expr(other)] * size
 
 
 def _vector_binary_op(
